@@ -206,7 +206,7 @@ void exec_op(World& W, TaskCtx& T, const Op& op, bool concurrent) {
         Inst& x = *re.inst;
         x.id = rec.exp; for (int i = 0; i < 3; ++i) x.v[i] = rec.v[i];
         x.lo = static_cast<size_t>(rec.L < 0 ? 0 : rec.L); x.hi = static_cast<size_t>(rec.H < 0 ? 0 : rec.H);
-        x.snap = rec.snap; x.str = std::to_string(1000 + rec.exp); x.pr = {1000 + rec.exp, rec.exp}; x.cell = re.cell.get();
+        x.snap = rec.snap; x.str = std::to_string(1000 + rec.exp); x.pr = {1000 + rec.exp, rec.exp}; x.exc.text = "inst " + std::to_string(rec.exp); x.cell = re.cell.get();
         for (int i = 0; i < rec.nseq; ++i) x.s[i] = W.seqs[static_cast<size_t>(rec.seqs[i])].get();
         MockBox& b = *W.task_refs[static_cast<size_t>(T.id)][static_cast<size_t>(rec.mock)];
         re.ep = shape_fns(rec.shape).make[b.kind](b.ptr(), x);
@@ -262,6 +262,7 @@ void exec_op(World& W, TaskCtx& T, const Op& op, bool concurrent) {
   catch (fatal_report const&) { o.outcome = OC_THREW_FATAL; }
   catch (clause_fault const&) { o.outcome = OC_THREW_FAULT; }
   catch (std::runtime_error const& ex) { o.outcome = OC_THREW_STD; o.sval = ex.what(); }
+  catch (sim_error const& ex) { o.outcome = OC_THREW_STD; o.sval = "user " + ex.text; }
   catch (std::logic_error const& ex) { o.outcome = OC_THREW_LOGIC; o.sval = ex.what(); }
   catch (int v) { o.outcome = OC_THREW_INT; o.value = v; }
   catch (...) { o.outcome = OC_THREW_OTHER; }
